@@ -11,6 +11,18 @@ Quantification in every theorem: every configuration `c` with `2 ≤ n`,
 reachable by the code as it is (`Reach`), i.e. every interleaving of every
 start order, including every interleaving inside `acceptConn`.
 
+Where `m ≤ 256` comes from: the connection id travels in ONE byte of the hello
+word (`dial`: `connMagic | (connID & 0xff)`, `acceptConn`:
+`int(byte(magic))`, `connMagicMask = 0xffffff00`), and `dial` refuses
+`connID > 0xff`.  The model keeps the two sides apart: the dialler stores under
+`k`, the acceptor files under `helloId k = k % 256`; they agree exactly for the
+ids `dial` admits (`C19_conn_id_one_byte`).  `Create`/`Join` do not bound
+`numConns`: with m > 256 the dial of id 256 fails ("invalid connection ID") -
+outside the theorems and outside the property's range (1..4).  checks/C19.py
+extracts the four constants on every run and requires that they describe the
+same id range (structural fact "hello id coding"), and runs real meshes with up
+to 256 connections per pair.
+
 History: before commit b60eeb5 `acceptConn` decremented `need[k]` and
 broadcast BEFORE it stored the connection; for that ordering (`ReachOld`,
 events `oldDec`/`oldStore`) all three statements are false.  The witnesses
@@ -81,6 +93,17 @@ theorem C19_mesh_safe (c : Cfg) (hc : c.Ok) (s : State) (h : Reach c s) :
     · exact Or.inr (Or.inr (Or.inr e))
 
 example : (⟨3, 2⟩ : Cfg).Ok := ⟨by decide, by decide, by decide⟩
+
+/-- The connection id fits the one byte it travels in exactly for the ids `dial`
+admits: for `k ≤ 0xff` the acceptor decodes `k`; id 256 would be decoded as 0
+(cross-wired), and `dial` takes its error path for every id above 0xff. -/
+theorem C19_conn_id_one_byte :
+    (∀ k, k ≤ 0xff → helloId k = k) ∧ helloId 256 = 0 ∧
+    (∀ (c : Cfg) (s : State) (i k j : Nat) (rest : List Nat), s.phase i = .run k (j :: rest) → 0xff < k →
+      (step c s (.dial i)).map (·.bad) = some true) := by
+  refine ⟨fun k hk => helloId_of_le k (by omega), by decide, ?_⟩
+  intro c s i k j rest hph hk
+  simp [step, hph, hk]
 
 /-- No step from a reachable state takes an error path (the successor
 state is again free of errors): in particular a `dial` is never issued on an
